@@ -18,7 +18,7 @@ type Group struct {
 	Conc  *ConcurrentConfig `json:"conc"`
 	Fuzz  FuzzConfig        `json:"fuzz"`
 	Tag   string            `json:"tag"`
-	Base  string            `json:"base"` // base URL path of the spec (normal form), for the client
+	Base  string            `json:"base"`  // base URL path of the spec (normal form), for the client
 	Local bool              `json:"local"` // wire: obtain the client from API.LocalClient() instead of NewClient(origin + base, ...)
 }
 
